@@ -192,3 +192,638 @@ Proof.
     + intros S w1 w2 Hm He. inversion Hm; subst. simpl. eapply A_rune; eauto. rewrite Ho. reflexivity.
   - discriminate.
 Qed.
+
+(* ------------------------------------------------------------------ what a result means *)
+(* good p H pc (mn,mx): mn bounds every path from pc that avoids the alternations H and is the length of
+   a real path when finite; mx, when finite, bounds every path from pc and is the length of one. *)
+Definition good (p : prog) (H : list nat) (pc : nat) (r : N * N) : Prop :=
+  (forall w, accA p H pc w -> fst r <= len w) /\
+  (sat p = true -> fst r < MAXU -> exists w, accA p [] pc w /\ len w = fst r) /\
+  (snd r < MAXU -> forall w, accA p [] pc w -> len w <= snd r) /\
+  (sat p = true -> snd r < MAXU -> exists w, accA p [] pc w /\ len w = snd r).
+
+Lemma matches_all_len : forall rs w, matches_all rs w -> length w = length rs.
+Proof. intros rs w H. induction H; simpl; auto. Qed.
+
+Lemma first_byte_matches : forall i n b, first_byte i n = Some b -> inst_matches i b = true.
+Proof.
+  induction n; simpl; intros b H; [discriminate|].
+  destruct (first_byte i n) eqn:E.
+  - inversion H; subst. auto.
+  - destruct (inst_matches i (N.of_nat n)) eqn:M; inversion H; subst; auto.
+Qed.
+
+Lemma sat_witness : forall p rs, sat p = true ->
+  Forall (fun i => In i (insts p) /\ is_rune (op i) = true) rs -> exists w, matches_all rs w.
+Proof.
+  intros p rs Hs H. induction H as [|i rs [Hi Hr] _ IH].
+  - exists []. constructor.
+  - destruct IH as [w Hw].
+    unfold sat in Hs. rewrite forallb_forall in Hs. specialize (Hs _ Hi).
+    unfold inst_sat in Hs.
+    destruct (first_byte i 256) as [b|] eqn:F; [|rewrite Hr in Hs; discriminate].
+    exists (b :: w). constructor; auto. eapply first_byte_matches; eauto.
+Qed.
+
+Lemma good_match : forall p f pc rs H, lin p f pc = Some (rs, LMatch) -> good p H pc (count rs, count rs).
+Proof.
+  intros p f pc rs H Hl. destruct (lin_spec _ _ _ _ _ Hl) as [_ [Hrs [Hd Hu]]].
+  rewrite count_cap. unfold good, cap; simpl. repeat split.
+  - intros w Hw. destruct (Hd _ _ Hw) as [w1 [w2 [E [M F]]]]. simpl in F. subst.
+    rewrite app_nil_r. unfold len. rewrite (matches_all_len _ _ M). lia.
+  - intros Hs Hlt. destruct (sat_witness _ _ Hs Hrs) as [w M]. exists (w ++ []). split.
+    + apply Hu; simpl; auto.
+    + rewrite app_nil_r. unfold len. rewrite (matches_all_len _ _ M). lia.
+  - intros Hlt w Hw. destruct (Hd _ _ Hw) as [w1 [w2 [E [M F]]]]. simpl in F. subst.
+    rewrite app_nil_r. unfold len. rewrite (matches_all_len _ _ M). lia.
+  - intros Hs Hlt. destruct (sat_witness _ _ Hs Hrs) as [w M]. exists (w ++ []). split.
+    + apply Hu; simpl; auto.
+    + rewrite app_nil_r. unfold len. rewrite (matches_all_len _ _ M). lia.
+Qed.
+
+Lemma good_fail : forall p f pc rs H, lin p f pc = Some (rs, LFail) -> good p H pc INF.
+Proof.
+  intros p f pc rs H Hl. destruct (lin_spec _ _ _ _ _ Hl) as [_ [Hrs [Hd Hu]]].
+  unfold good, INF; simpl. repeat split; try (intros; lia).
+  intros w Hw. destruct (Hd _ _ Hw) as [w1 [w2 [E [M F]]]]. contradiction.
+Qed.
+
+Lemma good_hit : forall p f pc rs a o g H, lin p f pc = Some (rs, LAlt a o g) -> In a H -> good p H pc INF.
+Proof.
+  intros p f pc rs a o g H Hl Hin. destruct (lin_spec _ _ _ _ _ Hl) as [[i [Hg [Ha _]]] [Hrs [Hd Hu]]].
+  unfold good, INF; simpl. repeat split; try (intros; lia).
+  intros w Hw. destruct (Hd _ _ Hw) as [w1 [w2 [E [M F]]]]. simpl in F.
+  destruct (accA_alt_inv _ _ _ _ _ Hg Ha F) as [N _]. contradiction.
+Qed.
+
+Lemma good_alt : forall p f pc rs a o g H H1 H2 r1 r2,
+  lin p f pc = Some (rs, LAlt a o g) ->
+  good p H1 o r1 -> good p H2 g r2 -> incl H1 (a :: H) -> incl H2 (a :: H) ->
+  good p H pc (combine (count rs) r1 r2).
+Proof.
+  intros p f pc rs a o g H H1 H2 [mn1 mx1] [mn2 mx2] Hl [A1 [B1 [C1 D1]]] [A2 [B2 [C2 D2]]] I1 I2.
+  destruct (lin_spec _ _ _ _ _ Hl) as [[i [Hg [Ha [Eo Eg]]]] [Hrs [Hd Hu]]]. subst o g.
+  unfold combine. rewrite !satadd_cap, count_cap. simpl in *.
+  assert (Hout : forall w, accA p [] (out i) w -> forall w1, matches_all rs w1 -> accA p [] pc (w1 ++ w)).
+  { intros w Hw w1 M. apply Hu; auto. simpl. eapply A_out; eauto. }
+  assert (Harg : forall w, accA p [] (arg i) w -> forall w1, matches_all rs w1 -> accA p [] pc (w1 ++ w)).
+  { intros w Hw w1 M. apply Hu; auto. simpl. eapply A_arg; eauto. }
+  unfold good; simpl. repeat split.
+  - (* lower bound on paths avoiding H *)
+    intros w Hw. destruct (Hd _ _ Hw) as [w1 [w2 [E [M F]]]]. simpl in F. subst w.
+    destruct (accA_alt_inv _ _ _ _ _ Hg Ha F) as [_ F'].
+    assert (K : N.min mn1 mn2 <= len w2).
+    { assert (L : forall x w', accA p H x w' -> len w' <= len w2 -> (x = out i \/ x = arg i) -> N.min mn1 mn2 <= len w2).
+      { intros x w' Hx Hlen Hxx.
+        destruct (last_visit _ _ _ _ Hg Ha _ _ Hx) as [P | [w'' [Hl'' P]]].
+        - destruct Hxx; subst x.
+          + specialize (A1 w' (accA_mono _ _ _ _ _ I1 P)). lia.
+          + specialize (A2 w' (accA_mono _ _ _ _ _ I2 P)). lia.
+        - destruct P as [P | P].
+          + specialize (A1 w'' (accA_mono _ _ _ _ _ I1 P)). lia.
+          + specialize (A2 w'' (accA_mono _ _ _ _ _ I2 P)). lia. }
+      destruct F' as [F' | F']; eapply L; eauto; lia. }
+    rewrite len_app. unfold len at 1. rewrite (matches_all_len _ _ M). unfold cap. lia.
+  - (* minimum attained *)
+    intros Hs Hlt. destruct (sat_witness _ _ Hs Hrs) as [w1 M].
+    pose proof (matches_all_len _ _ M) as L1.
+    destruct (N.le_ge_cases mn1 mn2) as [Hle | Hle].
+    + destruct B1 as [w [Hw E]]; auto. { unfold cap in Hlt. lia. }
+      exists (w1 ++ w). split; [apply Hout; auto|]. rewrite len_app. unfold len at 1. rewrite L1. unfold cap in *. lia.
+    + destruct B2 as [w [Hw E]]; auto. { unfold cap in Hlt. lia. }
+      exists (w1 ++ w). split; [apply Harg; auto|]. rewrite len_app. unfold len at 1. rewrite L1. unfold cap in *. lia.
+  - (* upper bound *)
+    intros Hlt w Hw. destruct (Hd _ _ Hw) as [w1 [w2 [E [M F]]]]. simpl in F. subst w.
+    destruct (accA_alt_inv _ _ _ _ _ Hg Ha F) as [_ F'].
+    rewrite len_app. unfold len at 1. rewrite (matches_all_len _ _ M).
+    unfold cap in *.
+    destruct F' as [F' | F'].
+    + assert (len w2 <= mx1) by (apply C1; [lia | auto]). lia.
+    + assert (len w2 <= mx2) by (apply C2; [lia | auto]). lia.
+  - (* maximum attained *)
+    intros Hs Hlt. destruct (sat_witness _ _ Hs Hrs) as [w1 M].
+    pose proof (matches_all_len _ _ M) as L1.
+    destruct (N.le_ge_cases mx1 mx2) as [Hle | Hle].
+    + destruct D2 as [w [Hw E]]; auto. { unfold cap in Hlt. lia. }
+      exists (w1 ++ w). split; [apply Harg; auto|]. rewrite len_app. unfold len at 1. rewrite L1. unfold cap in *. lia.
+    + destruct D1 as [w [Hw E]]; auto. { unfold cap in Hlt. lia. }
+      exists (w1 ++ w). split; [apply Hout; auto|]. rewrite len_app. unfold len at 1. rewrite L1. unfold cap in *. lia.
+Qed.
+
+(* unfolding equations (simpl would also unfold the linear run) *)
+Lemma walk_S : forall p fa pc seen, walk p (S fa) pc seen =
+    match lin p (lin_fuel p) pc with
+    | None => None
+    | Some (rs, e) =>
+      let k := count rs in
+      match e with
+      | LMatch => Some (k, k)
+      | LFail => Some INF
+      | LAlt a o g =>
+        if mem a seen then Some INF
+        else match walk p fa o (a :: seen) with
+             | None => None
+             | Some r1 =>
+               match walk p fa g (a :: seen) with
+               | None => None
+               | Some r2 => Some (combine k r1 r2)
+               end
+             end
+      end
+    end.
+Proof. reflexivity. Qed.
+
+Lemma walkc_S : forall p fa entry seen c, walkc p (S fa) entry seen c =
+  match cache_hit entry seen c with
+  | Some (r, ls) => Some (r, ls, c)
+  | None =>
+      match lin p (lin_fuel p) entry with
+      | None => None
+      | Some (rs, e) =>
+        let k := count rs in
+        match e with
+        | LMatch => Some ((k, k), [], store entry ((k, k), []) c)
+        | LFail => Some (INF, [], store entry (INF, []) c)
+        | LAlt a o g =>
+          if mem a seen then Some (INF, [a], store entry (INF, [a]) c)
+          else match walkc p fa o (a :: seen) c with
+               | None => None
+               | Some (r1, l1, c1) =>
+                 match walkc p fa g (a :: seen) c1 with
+                 | None => None
+                 | Some (r2, l2, c2) =>
+                   let r := combine k r1 r2 in
+                   let ls := drop a l1 ++ drop a l2 in
+                   Some (r, ls, store entry (r, ls) c2)
+                 end
+               end
+        end
+      end
+  end.
+Proof. reflexivity. Qed.
+
+Lemma walkc_O : forall p entry seen c, walkc p O entry seen c =
+  match cache_hit entry seen c with Some (r, ls) => Some (r, ls, c) | None => None end.
+Proof. reflexivity. Qed.
+
+Lemma sufwalk_S : forall p fa pc seen s, sufwalk p (S fa) pc seen s =
+    match lin p (lin_fuel p) pc with
+    | None => None
+    | Some (rs, e) =>
+      let s' := fold_left suf_step rs s in
+      match e with
+      | LMatch => Some s'
+      | LFail => Some []
+      | LAlt a o g =>
+        if mem a seen then Some []
+        else match sufwalk p fa o (a :: seen) s' with
+             | None => None
+             | Some s2 =>
+               match sufwalk p fa g (a :: seen) s' with
+               | None => None
+               | Some s1 => Some (common_suffix s1 s2)
+               end
+             end
+      end
+    end.
+Proof. reflexivity. Qed.
+
+(* ------------------------------------------------------------------ the cache-free walk is exact *)
+Lemma walk_good : forall p fa pc seen r, walk p fa pc seen = Some r -> good p seen pc r.
+Proof.
+  induction fa; intros pc seen r H; [discriminate|]. rewrite walk_S in H.
+  destruct (lin p (lin_fuel p) pc) as [[rs e]|] eqn:Hl; [|discriminate]. cbv zeta in H.
+  destruct e as [a o g| |].
+  - destruct (mem a seen) eqn:Hm.
+    + inversion H; subst. eapply good_hit; eauto. apply mem_In. exact Hm.
+    + destruct (walk p fa o (a :: seen)) as [r1|] eqn:W1; [|discriminate].
+      destruct (walk p fa g (a :: seen)) as [r2|] eqn:W2; [|discriminate].
+      inversion H; subst. eapply good_alt; eauto; apply incl_refl.
+  - inversion H; subst. eapply good_match; eauto.
+  - inversion H; subst. eapply good_fail; eauto.
+Qed.
+
+(* ------------------------------------------------------------------ the memoised walk (as fixed) is exact *)
+Definition cache_good (p : prog) (c : cache) : Prop :=
+  Forall (fun kv => good p (snd (snd kv)) (fst kv) (fst (snd kv))) c.
+
+Lemma lookup_In : forall A e (c : list (nat * A)) v, lookup e c = Some v -> In (e, v) c.
+Proof.
+  induction c as [|[k x] c IH]; simpl; intros v H; [discriminate|].
+  destruct (Nat.eqb_spec e k).
+  - inversion H; subst. auto.
+  - right. auto.
+Qed.
+
+Lemma drop_incl : forall a l H, incl l (a :: H) -> incl (drop a l) H.
+Proof.
+  intros a l H I x Hx. unfold drop in Hx. apply filter_In in Hx. destruct Hx as [Hx Hn].
+  destruct (I _ Hx) as [E | E]; auto. subst. rewrite Nat.eqb_refl in Hn. discriminate.
+Qed.
+
+Lemma incl_drop : forall a l, incl l (a :: drop a l).
+Proof.
+  intros a l x Hx. destruct (Nat.eq_dec x a); [left; auto|]. right. unfold drop. apply filter_In. split; auto.
+  destruct (Nat.eqb_spec x a); [contradiction | reflexivity].
+Qed.
+
+Lemma walkc_good : forall p fa entry seen c r ls c',
+  walkc p fa entry seen c = Some (r, ls, c') -> cache_good p c ->
+  cache_good p c' /\ good p ls entry r /\ incl ls seen.
+Proof.
+  induction fa; intros entry seen c r ls c' H Hc.
+  - rewrite walkc_O in H. unfold cache_hit in H. destruct (lookup entry c) as [[r0 l0]|] eqn:L; [|discriminate].
+    destruct (forallb (fun l => mem l seen) l0) eqn:F; [|discriminate]. inversion H; subst.
+    split; auto. split.
+    + apply lookup_In in L. unfold cache_good in Hc. rewrite Forall_forall in Hc. apply (Hc _ L).
+    + intros x Hx. rewrite forallb_forall in F. apply mem_In. auto.
+  - rewrite walkc_S in H. destruct (cache_hit entry seen c) as [[r0 l0]|] eqn:CH.
+    + unfold cache_hit in CH. destruct (lookup entry c) as [[r1 l1]|] eqn:L; [|discriminate].
+      destruct (forallb (fun l => mem l seen) l1) eqn:F; [|discriminate]. inversion CH; subst. inversion H; subst.
+      split; auto. split.
+      * apply lookup_In in L. unfold cache_good in Hc. rewrite Forall_forall in Hc. apply (Hc _ L).
+      * intros x Hx. rewrite forallb_forall in F. apply mem_In. auto.
+    + clear CH. destruct (lin p (lin_fuel p) entry) as [[rs e]|] eqn:Hl; [|discriminate]. cbv zeta in H.
+      destruct e as [a o g| |].
+      * destruct (mem a seen) eqn:Hm.
+        -- inversion H; subst. assert (G : good p [a] entry INF) by (eapply good_hit; eauto; simpl; auto).
+           split; [constructor; auto|]. split; auto.
+           intros x [E|[]]. subst. apply mem_In. auto.
+        -- destruct (walkc p fa o (a :: seen) c) as [[[r1 l1] c1]|] eqn:W1; [|discriminate].
+           destruct (walkc p fa g (a :: seen) c1) as [[[r2 l2] c2]|] eqn:W2; [|discriminate].
+           inversion H; subst. clear H.
+           destruct (IHfa _ _ _ _ _ _ W1 Hc) as [Hc1 [G1 I1]].
+           destruct (IHfa _ _ _ _ _ _ W2 Hc1) as [Hc2 [G2 I2]].
+           assert (G : good p (drop a l1 ++ drop a l2) entry (combine (count rs) r1 r2)).
+           { eapply good_alt; eauto.
+             - intros x Hx. destruct (incl_drop a l1 x Hx) as [E|E]; [left; auto | right; apply in_or_app; auto].
+             - intros x Hx. destruct (incl_drop a l2 x Hx) as [E|E]; [left; auto | right; apply in_or_app; auto]. }
+           split; [constructor; auto|]. split; auto.
+           apply incl_app; apply drop_incl; auto.
+      * inversion H; subst. assert (G : good p [] entry (count rs, count rs)) by (eapply good_match; eauto).
+        split; [constructor; auto|]. split; auto. apply incl_nil_l.
+      * inversion H; subst. assert (G : good p [] entry INF) by (eapply good_fail; eauto).
+        split; [constructor; auto|]. split; auto. apply incl_nil_l.
+Qed.
+
+(* ------------------------------------------------------------------ the suffix walk *)
+Definition is_suffix (s x : list N) : Prop := exists pre, x = pre ++ s.
+
+Lemma is_suffix_nil : forall x, is_suffix [] x.
+Proof. intros. exists x. rewrite app_nil_r. reflexivity. Qed.
+
+Lemma is_suffix_trans : forall a b c, is_suffix a b -> is_suffix b c -> is_suffix a c.
+Proof. intros a b c [p1 E1] [p2 E2]. subst. exists (p2 ++ p1). rewrite app_assoc. reflexivity. Qed.
+
+Lemma common_prefix_l : forall a b, exists t, a = common_prefix a b ++ t.
+Proof.
+  induction a; intros b; simpl.
+  - exists []. reflexivity.
+  - destruct b; [exists (a :: a0); reflexivity|]. destruct (N.eqb_spec a n).
+    + destruct (IHa b) as [t E]. exists t. simpl. congruence.
+    + exists (a :: a0). reflexivity.
+Qed.
+
+Lemma common_prefix_r : forall a b, exists t, b = common_prefix a b ++ t.
+Proof.
+  induction a; intros b; simpl.
+  - exists b. reflexivity.
+  - destruct b; [exists []; reflexivity|]. destruct (N.eqb_spec a n).
+    + destruct (IHa b) as [t E]. exists t. simpl. congruence.
+    + exists (n :: b). reflexivity.
+Qed.
+
+Lemma common_suffix_l : forall a b, is_suffix (common_suffix a b) a.
+Proof.
+  intros. unfold common_suffix. destruct (common_prefix_l (rev a) (rev b)) as [t E].
+  exists (rev t). rewrite <- rev_app_distr, <- E, rev_involutive. reflexivity.
+Qed.
+
+Lemma common_suffix_r : forall a b, is_suffix (common_suffix a b) b.
+Proof.
+  intros. unfold common_suffix. destruct (common_prefix_r (rev a) (rev b)) as [t E].
+  exists (rev t). rewrite <- rev_app_distr, <- E, rev_involutive. reflexivity.
+Qed.
+
+Lemma forallb_In : forall A (f : A -> bool) l x, forallb f l = true -> In x l -> f x = true.
+Proof. intros. rewrite forallb_forall in H. auto. Qed.
+
+(* an instruction the suffix walk takes for a literal consumes exactly that byte *)
+Lemma literal_matches : forall p i b b', inst_ok p i = true -> is_rune (op i) = true ->
+  literal_byte i = Some b -> inst_matches i b' = true -> b' = b.
+Proof.
+  intros p i b b' Hok Hr Hl Hm. unfold literal_byte in Hl.
+  destruct (runes i) as [|r0 [|r1 rest]] eqn:R; try discriminate.
+  destruct ((r0 <=? 255) && negb (fold_flag i)) eqn:C; [|discriminate]. inversion Hl; subst.
+  apply andb_true_iff in C. destruct C as [_ C]. apply negb_true_iff in C.
+  unfold inst_matches, inst_ok, match_rune in *. rewrite R in *.
+  destruct (op i); simpl in *; try discriminate.
+  - rewrite C in Hm. simpl in Hm. rewrite orb_false_r in Hm. apply N.eqb_eq in Hm. auto.
+  - apply N.eqb_eq in Hm. auto.
+Qed.
+
+Lemma suf_steps : forall p rs w1, Forall (fun i => In i (insts p) /\ is_rune (op i) = true) rs ->
+  forallb (inst_ok p) (insts p) = true -> matches_all rs w1 ->
+  forall s w0, is_suffix s w0 -> is_suffix (fold_left suf_step rs s) (w0 ++ w1).
+Proof.
+  intros p rs w1 Hrs Hok M. induction M; intros s w0 Hs; simpl.
+  - rewrite app_nil_r. auto.
+  - inversion Hrs; subst. destruct H2 as [Hi Hr].
+    replace (w0 ++ y :: l') with ((w0 ++ [y]) ++ l') by (rewrite <- app_assoc; reflexivity).
+    apply IHM; auto. unfold suf_step. destruct (literal_byte x) as [b|] eqn:L.
+    + assert (y = b) by (eapply literal_matches; eauto; eapply forallb_In; eauto). subst.
+      destruct Hs as [pre E]. subst. exists pre. rewrite app_assoc. reflexivity.
+    + apply is_suffix_nil.
+Qed.
+
+Lemma sufwalk_sound : forall p, forallb (inst_ok p) (insts p) = true ->
+  forall fa pc seen s s', sufwalk p fa pc seen s = Some s' ->
+  forall w0 w, is_suffix s w0 -> accA p [] pc w -> is_suffix s' (w0 ++ w).
+Proof.
+  intros p Hok. induction fa; intros pc seen s s' H w0 w Hs Hw; [discriminate|]. rewrite sufwalk_S in H.
+  destruct (lin p (lin_fuel p) pc) as [[rs e]|] eqn:Hl; [|discriminate]. cbv zeta in H.
+  destruct (lin_spec _ _ _ _ _ Hl) as [Hend [Hrs [Hd _]]].
+  destruct (Hd _ _ Hw) as [w1 [w2 [E [M F]]]]. subst w.
+  pose proof (suf_steps _ _ _ Hrs Hok M _ _ Hs) as Hs1.
+  rewrite app_assoc.
+  destruct e as [a o g| |].
+  - destruct (mem a seen); [inversion H; apply is_suffix_nil|].
+    destruct (sufwalk p fa o (a :: seen) (fold_left suf_step rs s)) as [s2|] eqn:W2; [|discriminate].
+    destruct (sufwalk p fa g (a :: seen) (fold_left suf_step rs s)) as [s1|] eqn:W1; [|discriminate].
+    inversion H; subst. simpl in F. destruct Hend as [i [Hg [Ha [Eo Eg]]]]. subst.
+    destruct (accA_alt_inv _ _ _ _ _ Hg Ha F) as [_ [F' | F']].
+    + eapply is_suffix_trans; [apply common_suffix_r|]. eapply IHfa; eauto.
+    + eapply is_suffix_trans; [apply common_suffix_l|]. eapply IHfa; eauto.
+  - inversion H; subst. simpl in F. subst. rewrite app_nil_r. auto.
+  - contradiction.
+Qed.
+
+(* ------------------------------------------------------------------ totality on well-formed programs *)
+Lemma wf_parts : forall p, wf p = true ->
+  forallb (inst_ok p) (insts p) = true /\ (forall pc, (pc < size p)%nat -> lin_ok p pc = true) /\ (start p < size p)%nat.
+Proof.
+  intros p H. unfold wf in H. apply andb_true_iff in H. destruct H as [H H3]. apply andb_true_iff in H. destruct H as [H1 H2].
+  split; auto. split.
+  - intros pc Hpc. rewrite forallb_forall in H2. apply H2. apply in_seq. lia.
+  - apply Nat.ltb_lt. exact H3.
+Qed.
+
+Lemma alt_targets : forall p f pc rs a o g, forallb (inst_ok p) (insts p) = true ->
+  lin p f pc = Some (rs, LAlt a o g) -> (a < size p)%nat /\ (o < size p)%nat /\ (g < size p)%nat.
+Proof.
+  intros p f pc rs a o g Hok Hl. destruct (lin_spec _ _ _ _ _ Hl) as [[i [Hg [Ha [Eo Eg]]]] _].
+  split; [eapply get_lt; eauto|].
+  pose proof (forallb_In _ _ _ _ Hok (get_In _ _ _ Hg)) as K. unfold inst_ok in K.
+  destruct (op i); simpl in Ha; try discriminate; apply andb_true_iff in K; destruct K as [K1 K2];
+    apply Nat.ltb_lt in K1; apply Nat.ltb_lt in K2; subst; auto.
+Qed.
+
+Lemma seen_bound : forall n seen, NoDup seen -> (forall x, In x seen -> (x < n)%nat) -> (length seen <= n)%nat.
+Proof.
+  intros n seen Hnd Hb. rewrite <- (seq_length n 0). apply NoDup_incl_length; auto.
+  intros x Hx. apply in_seq. specialize (Hb _ Hx). lia.
+Qed.
+
+Lemma walk_total : forall p, wf p = true -> forall fa pc seen,
+  (pc < size p)%nat -> NoDup seen -> (forall x, In x seen -> (x < size p)%nat) ->
+  (size p + 1 <= fa + length seen)%nat -> exists r, walk p fa pc seen = Some r.
+Proof.
+  intros p Hwf. destruct (wf_parts _ Hwf) as [Hok [Hlin _]].
+  induction fa; intros pc seen Hpc Hnd Hb Hf.
+  - pose proof (seen_bound _ _ Hnd Hb). simpl in Hf. lia.
+  - rewrite walk_S. specialize (Hlin _ Hpc). unfold lin_ok in Hlin.
+    destruct (lin p (lin_fuel p) pc) as [[rs e]|] eqn:Hl; [|discriminate]. cbv zeta.
+    destruct e as [a o g| |]; eauto.
+    destruct (mem a seen) eqn:Hm; eauto.
+    destruct (alt_targets _ _ _ _ _ _ _ Hok Hl) as [Ha [Ho Hg]].
+    assert (Hnd' : NoDup (a :: seen)) by (constructor; auto; apply mem_false_notin; auto).
+    assert (Hb' : forall x, In x (a :: seen) -> (x < size p)%nat) by (intros x [E|E]; subst; auto).
+    destruct (IHfa o (a :: seen)) as [r1 E1]; auto; [simpl; lia|].
+    destruct (IHfa g (a :: seen)) as [r2 E2]; auto; [simpl; lia|].
+    rewrite E1, E2. eauto.
+Qed.
+
+Lemma sufwalk_total : forall p, wf p = true -> forall fa pc seen s,
+  (pc < size p)%nat -> NoDup seen -> (forall x, In x seen -> (x < size p)%nat) ->
+  (size p + 1 <= fa + length seen)%nat -> exists r, sufwalk p fa pc seen s = Some r.
+Proof.
+  intros p Hwf. destruct (wf_parts _ Hwf) as [Hok [Hlin _]].
+  induction fa; intros pc seen s Hpc Hnd Hb Hf.
+  - pose proof (seen_bound _ _ Hnd Hb). simpl in Hf. lia.
+  - rewrite sufwalk_S. specialize (Hlin _ Hpc). unfold lin_ok in Hlin.
+    destruct (lin p (lin_fuel p) pc) as [[rs e]|] eqn:Hl; [|discriminate]. cbv zeta.
+    destruct e as [a o g| |]; eauto.
+    destruct (mem a seen) eqn:Hm; eauto.
+    destruct (alt_targets _ _ _ _ _ _ _ Hok Hl) as [Ha [Ho Hg]].
+    assert (Hnd' : NoDup (a :: seen)) by (constructor; auto; apply mem_false_notin; auto).
+    assert (Hb' : forall x, In x (a :: seen) -> (x < size p)%nat) by (intros x [E|E]; subst; auto).
+    destruct (IHfa o (a :: seen) (fold_left suf_step rs s)) as [r1 E1]; auto; [simpl; lia|].
+    destruct (IHfa g (a :: seen) (fold_left suf_step rs s)) as [r2 E2]; auto; [simpl; lia|].
+    rewrite E1, E2. eauto.
+Qed.
+
+Lemma walkc_total : forall p, wf p = true -> forall fa entry seen c,
+  (entry < size p)%nat -> NoDup seen -> (forall x, In x seen -> (x < size p)%nat) ->
+  (size p + 1 <= fa + length seen)%nat -> exists r, walkc p fa entry seen c = Some r.
+Proof.
+  intros p Hwf. destruct (wf_parts _ Hwf) as [Hok [Hlin _]].
+  induction fa; intros entry seen c Hpc Hnd Hb Hf.
+  - pose proof (seen_bound _ _ Hnd Hb). simpl in Hf. lia.
+  - rewrite walkc_S. destruct (cache_hit entry seen c) as [[r0 l0]|]; eauto.
+    specialize (Hlin _ Hpc). unfold lin_ok in Hlin.
+    destruct (lin p (lin_fuel p) entry) as [[rs e]|] eqn:Hl; [|discriminate]. cbv zeta.
+    destruct e as [a o g| |]; eauto.
+    destruct (mem a seen) eqn:Hm; eauto.
+    destruct (alt_targets _ _ _ _ _ _ _ Hok Hl) as [Ha [Ho Hg]].
+    assert (Hnd' : NoDup (a :: seen)) by (constructor; auto; apply mem_false_notin; auto).
+    assert (Hb' : forall x, In x (a :: seen) -> (x < size p)%nat) by (intros x [E|E]; subst; auto).
+    destruct (IHfa o (a :: seen) c) as [[[r1 l1] c1] E1]; auto; [simpl; lia|].
+    destruct (IHfa g (a :: seen) c1) as [[[r2 l2] c2] E2]; auto; [simpl; lia|].
+    rewrite E1, E2. eauto.
+Qed.
+
+(* ------------------------------------------------------------------ top-level statements *)
+Lemma nodup_nil_bound : forall n, NoDup (@nil nat) /\ (forall x, In x (@nil nat) -> (x < n)%nat).
+Proof. intros. split; [constructor | intros x []]. Qed.
+
+Lemma accepted_length_total : forall p, wf p = true -> exists r, accepted_length p = Some r.
+Proof.
+  intros p Hwf. destruct (wf_parts _ Hwf) as [_ [_ Hs]]. destruct (nodup_nil_bound (size p)) as [A B].
+  unfold accepted_length. apply walk_total; auto. unfold alt_fuel. simpl. lia.
+Qed.
+
+Lemma accepted_length_cached_total : forall p, wf p = true -> exists r, accepted_length_cached p = Some r.
+Proof.
+  intros p Hwf. destruct (wf_parts _ Hwf) as [_ [_ Hs]]. destruct (nodup_nil_bound (size p)) as [A B].
+  unfold accepted_length_cached.
+  destruct (walkc_total p Hwf (alt_fuel p) (start p) [] []) as [[[r l] c] E]; auto.
+  - unfold alt_fuel. simpl. lia.
+  - rewrite E. eauto.
+Qed.
+
+Lemma constant_suffix_total : forall p, wf p = true -> exists s, constant_suffix p = Some s.
+Proof.
+  intros p Hwf. destruct (wf_parts _ Hwf) as [_ [_ Hs]]. destruct (nodup_nil_bound (size p)) as [A B].
+  unfold constant_suffix. apply sufwalk_total; auto. unfold alt_fuel. simpl. lia.
+Qed.
+
+Lemma accepted_length_good : forall p r, accepted_length p = Some r -> good p [] (start p) r.
+Proof. intros p r H. unfold accepted_length in H. eapply walk_good; eauto. Qed.
+
+Lemma accepted_length_cached_good : forall p r, accepted_length_cached p = Some r -> good p [] (start p) r.
+Proof.
+  intros p r H. unfold accepted_length_cached in H.
+  destruct (walkc p (alt_fuel p) (start p) [] []) as [[[r0 l] c]|] eqn:E; [|discriminate]. inversion H; subst.
+  destruct (walkc_good _ _ _ _ _ _ _ _ E) as [_ [G I]]; [constructor|].
+  assert (l = []) by (destruct l; auto; exfalso; apply (I n); simpl; auto). subst. exact G.
+Qed.
+
+(* every computed value is at most MaxUint *)
+Lemma combine_le : forall k r1 r2, fst (combine k r1 r2) <= MAXU /\ snd (combine k r1 r2) <= MAXU.
+Proof. intros. unfold combine. simpl. rewrite !satadd_cap. unfold cap. lia. Qed.
+
+Lemma walk_le : forall p fa pc seen r, walk p fa pc seen = Some r -> fst r <= MAXU /\ snd r <= MAXU.
+Proof.
+  destruct fa; intros pc seen r H; [discriminate|]. rewrite walk_S in H.
+  destruct (lin p (lin_fuel p) pc) as [[rs e]|]; [|discriminate]. cbv zeta in H.
+  destruct e as [a o g| |].
+  - destruct (mem a seen); [inversion H; simpl; lia|].
+    destruct (walk p fa o (a :: seen)); [|discriminate]. destruct (walk p fa g (a :: seen)); [|discriminate].
+    inversion H. apply combine_le.
+  - inversion H; simpl. rewrite count_cap. unfold cap. lia.
+  - inversion H; simpl. lia.
+Qed.
+
+Lemma good_min_unique : forall p pc r1 r2, sat p = true -> good p [] pc r1 -> good p [] pc r2 ->
+  fst r1 <= MAXU -> fst r2 <= MAXU -> fst r1 = fst r2.
+Proof.
+  intros p pc [a1 b1] [a2 b2] Hs [A1 [B1 _]] [A2 [B2 _]] L1 L2. simpl in *.
+  destruct (N.eq_dec a1 MAXU) as [E1|E1]; destruct (N.eq_dec a2 MAXU) as [E2|E2]; try lia.
+  - destruct B2 as [w [Hw E]]; auto; [lia|]. specialize (A1 _ Hw). lia.
+  - destruct B1 as [w [Hw E]]; auto; [lia|]. specialize (A2 _ Hw). lia.
+  - destruct B1 as [w1 [Hw1 E1']]; auto; [lia|]. destruct B2 as [w2 [Hw2 E2']]; auto; [lia|].
+    specialize (A1 _ Hw2). specialize (A2 _ Hw1). lia.
+Qed.
+
+Lemma good_max_unique : forall p pc r1 r2, sat p = true -> good p [] pc r1 -> good p [] pc r2 ->
+  snd r1 < MAXU -> snd r2 < MAXU -> snd r1 = snd r2.
+Proof.
+  intros p pc [a1 b1] [a2 b2] Hs [_ [_ [C1 D1]]] [_ [_ [C2 D2]]] L1 L2. simpl in *.
+  destruct D1 as [w1 [Hw1 E1]]; auto. destruct D2 as [w2 [Hw2 E2]]; auto.
+  specialize (C1 L1 _ Hw2). specialize (C2 L2 _ Hw1). lia.
+Qed.
+
+Lemma walkc_le : forall p fa entry seen c r ls c', walkc p fa entry seen c = Some (r, ls, c') ->
+  Forall (fun kv => fst (fst (snd kv)) <= MAXU) c ->
+  Forall (fun kv => fst (fst (snd kv)) <= MAXU) c' /\ fst r <= MAXU.
+Proof.
+  induction fa; intros entry seen c r ls c' H Hc.
+  - rewrite walkc_O in H. unfold cache_hit in H. destruct (lookup entry c) as [[r0 l0]|] eqn:L; [|discriminate].
+    destruct (forallb (fun l => mem l seen) l0); [|discriminate]. inversion H; subst. split; auto.
+    apply lookup_In in L. rewrite Forall_forall in Hc. apply (Hc _ L).
+  - rewrite walkc_S in H. destruct (cache_hit entry seen c) as [[r0 l0]|] eqn:CH.
+    + unfold cache_hit in CH. destruct (lookup entry c) as [[r1 l1]|] eqn:L; [|discriminate].
+      destruct (forallb (fun l => mem l seen) l1); [|discriminate]. inversion CH; subst. inversion H; subst. split; auto.
+      apply lookup_In in L. rewrite Forall_forall in Hc. apply (Hc _ L).
+    + clear CH. destruct (lin p (lin_fuel p) entry) as [[rs e]|]; [|discriminate]. cbv zeta in H.
+      destruct e as [a o g| |].
+      * destruct (mem a seen).
+        -- inversion H; subst. simpl. split; [constructor; auto; simpl; lia | lia].
+        -- destruct (walkc p fa o (a :: seen) c) as [[[r1 l1] c1]|] eqn:W1; [|discriminate].
+           destruct (walkc p fa g (a :: seen) c1) as [[[r2 l2] c2]|] eqn:W2; [|discriminate].
+           inversion H; subst. destruct (IHfa _ _ _ _ _ _ W1 Hc) as [Hc1 _]. destruct (IHfa _ _ _ _ _ _ W2 Hc1) as [Hc2 _].
+           pose proof (combine_le (count rs) r1 r2) as [K _]. split; auto. constructor; auto.
+      * inversion H; subst. simpl. assert (count rs <= MAXU) by (rewrite count_cap; unfold cap; lia).
+        split; auto. constructor; auto.
+      * inversion H; subst. simpl. split; [constructor; auto; simpl; lia | lia].
+Qed.
+
+(* the memo table does not change the minimum; it does not change a finite maximum *)
+Lemma cache_transparent_min : forall p r rc, sat p = true ->
+  accepted_length p = Some r -> accepted_length_cached p = Some rc -> fst rc = fst r.
+Proof.
+  intros p r rc Hs H Hc.
+  pose proof (accepted_length_good _ _ H) as G. pose proof (accepted_length_cached_good _ _ Hc) as Gc.
+  unfold accepted_length in H. destruct (walk_le _ _ _ _ _ H) as [L _].
+  unfold accepted_length_cached in Hc.
+  destruct (walkc p (alt_fuel p) (start p) [] []) as [[[r0 l] c]|] eqn:E; [|discriminate]. inversion Hc; subst.
+  destruct (walkc_le _ _ _ _ _ _ _ _ E) as [_ Lc]; [constructor|].
+  eapply good_min_unique; eauto.
+Qed.
+
+Lemma cache_transparent_max_finite : forall p r rc, sat p = true ->
+  accepted_length p = Some r -> accepted_length_cached p = Some rc ->
+  snd r < MAXU -> snd rc < MAXU -> snd rc = snd r.
+Proof.
+  intros p r rc Hs H Hc L Lc. eapply good_max_unique; eauto using accepted_length_good, accepted_length_cached_good.
+Qed.
+
+Lemma constant_suffix_sound : forall p s w, wf p = true -> constant_suffix p = Some s -> accepts p w -> is_suffix s w.
+Proof.
+  intros p s w Hwf H Hw. destruct (wf_parts _ Hwf) as [Hok _].
+  unfold constant_suffix in H. change w with ([] ++ w). eapply sufwalk_sound; eauto. apply is_suffix_nil.
+Qed.
+
+(* the executable acceptor only says yes to accepted words *)
+Lemma acc_b_sound : forall p fuel seen pc w, acc_b p fuel seen pc w = true -> accA p [] pc w.
+Proof.
+  induction fuel; intros seen pc w H; simpl in H; [discriminate|].
+  destruct (get p pc) as [i|] eqn:Hg; [|discriminate].
+  destruct (op i) eqn:Ho; try discriminate.
+  - destruct (mem pc seen); [discriminate|]. apply orb_true_iff in H. destruct H as [H|H].
+    + eapply A_out; eauto. rewrite Ho. reflexivity.
+    + eapply A_arg; eauto. rewrite Ho. reflexivity.
+  - destruct (mem pc seen); [discriminate|]. apply orb_true_iff in H. destruct H as [H|H].
+    + eapply A_out; eauto. rewrite Ho. reflexivity.
+    + eapply A_arg; eauto. rewrite Ho. reflexivity.
+  - eapply A_eps; eauto. rewrite Ho. reflexivity.
+  - eapply A_eps; eauto. rewrite Ho. reflexivity.
+  - destruct w; [|discriminate]. eapply A_match; eauto.
+  - eapply A_eps; eauto. rewrite Ho. reflexivity.
+  - destruct w as [|b w]; [discriminate|]. apply andb_true_iff in H. destruct H as [M H].
+    eapply A_rune; eauto. rewrite Ho. reflexivity.
+  - destruct w as [|b w]; [discriminate|]. apply andb_true_iff in H. destruct H as [M H].
+    eapply A_rune; eauto. rewrite Ho. reflexivity.
+  - destruct w as [|b w]; [discriminate|]. apply andb_true_iff in H. destruct H as [M H].
+    eapply A_rune; eauto. rewrite Ho. reflexivity.
+  - destruct w as [|b w]; [discriminate|]. apply andb_true_iff in H. destruct H as [M H].
+    eapply A_rune; eauto. rewrite Ho. reflexivity.
+Qed.
+
+Lemma accepts_b_sound : forall p w, accepts_b p w = true -> accepts p w.
+Proof. intros p w H. unfold accepts_b in H. eapply acc_b_sound; eauto. Qed.
+
+(* ------------------------------------------------------------------ statements used by props/C18.v *)
+Lemma cached_length_sound : forall p mn mx w,
+  accepted_length_cached p = Some (mn, mx) -> accepts p w ->
+  mn <= len w /\ (mx < MAXU -> len w <= mx).
+Proof.
+  intros p mn mx w H Hw. destruct (accepted_length_cached_good _ _ H) as [A [_ [C _]]]. simpl in *.
+  split; [apply A; exact Hw | intros L; apply C; auto].
+Qed.
+
+Lemma cached_min_attained : forall p mn mx,
+  accepted_length_cached p = Some (mn, mx) -> sat p = true -> mn < MAXU ->
+  exists w, accepts p w /\ len w = mn.
+Proof. intros p mn mx H Hs L. destruct (accepted_length_cached_good _ _ H) as [_ [B _]]. apply B; auto. Qed.
+
+Lemma cached_max_attained : forall p mn mx,
+  accepted_length_cached p = Some (mn, mx) -> sat p = true -> mx < MAXU ->
+  exists w, accepts p w /\ len w = mx.
+Proof. intros p mn mx H Hs L. destruct (accepted_length_cached_good _ _ H) as [_ [_ [_ D]]]. apply D; auto. Qed.
+
+Lemma nocache_length_sound : forall p mn mx w,
+  accepted_length p = Some (mn, mx) -> accepts p w ->
+  mn <= len w /\ (mx < MAXU -> len w <= mx).
+Proof.
+  intros p mn mx w H Hw. destruct (accepted_length_good _ _ H) as [A [_ [C _]]]. simpl in *.
+  split; [apply A; exact Hw | intros L; apply C; auto].
+Qed.
+
+Lemma nocache_min_attained : forall p mn mx,
+  accepted_length p = Some (mn, mx) -> sat p = true -> mn < MAXU -> exists w, accepts p w /\ len w = mn.
+Proof. intros p mn mx H Hs L. destruct (accepted_length_good _ _ H) as [_ [B _]]. apply B; auto. Qed.
+
+Lemma nocache_max_attained : forall p mn mx,
+  accepted_length p = Some (mn, mx) -> sat p = true -> mx < MAXU -> exists w, accepts p w /\ len w = mx.
+Proof. intros p mn mx H Hs L. destruct (accepted_length_good _ _ H) as [_ [_ [_ D]]]. apply D; auto. Qed.
